@@ -45,6 +45,7 @@ def gen(rng, outers=OUTERS, fault_rate=0.25):
             'fault': fault, 'custom_id': rng.random() < 0.5,
             'procs': rng.randint(0, 2), 'frames': rng.randint(2, 3),
             'act_before_fault': fault and rng.random() < 0.5,
+            'respawn_delete': rng.random() < 0.5,
             # whether the program deletes the entity again in later frames
             # (a deferred deletion must not need that, even when the frame
             # that applied it failed half way)
@@ -157,6 +158,11 @@ def run(case):
                     respawned.append(c.uid)
                 if fresh:
                     w.create_entity(*fresh, entity_id=E)
+                    if case.get('respawn_delete'):
+                        # ... and the new entity is at once asked to go at
+                        # the next frame (its own, new, deferred deletion)
+                        w.delete_entity(E)
+                        state['respawn_deleted'] = True
         elif a == 'add_same_type':
             # a component of the actor's own type is attached again to E
             # (during a replacement: while the incoming one is on its way)
@@ -343,6 +349,38 @@ def run(case):
     if not case['fault']:
         attached = sweep(2)
         if attached is None or not judge_components(2, attached):
+            return res
+        if respawned and state.get('respawn_deleted'):
+            res.stats['respawns_deleted_again_at_once'] += 1
+            # (marks set while a flush is running are served by that same
+            # flush, as for any other entity deleted from an on_remove: the
+            # new entity is either gone already or waits, whole, for the
+            # next frame)
+            missing = [u for u in respawned if attached.get(u) != E]
+            if w.entity_exists(E) or (missing and len(missing)
+                                      != len(respawned)):
+                res.div(2, 'reentry-new-deletion-lost', 'the new entity '
+                        'created under the dying id was asked to go with a '
+                        'deferred deletion of its own: it does not exist '
+                        'for entity_exists any more (and is either whole or '
+                        'gone)', {'missing': 'all or none', 'exists': False},
+                        {'missing': missing, 'exists': w.entity_exists(E)})
+                return res
+            try:
+                w.process(1)
+            except Exception as ex:
+                res.div(3, 'reentry-later-frame-fails', 'the frame after the '
+                        'respawn raised', 'no exception', repr(ex))
+                return res
+            left = [c.uid for c in w.get_components(E)]
+            if left or w.entity_exists(E):
+                res.div(3, 'reentry-new-deletion-lost', 'the deferred '
+                        'deletion requested for the new entity (created '
+                        'under the id of the entity being flushed) was not '
+                        'applied by the next process()', [],
+                        [left, w.entity_exists(E)])
+                return res
+            res.nontrivial = True
             return res
         if respawned:
             res.stats['respawns_under_the_dying_id'] += 1
